@@ -3,10 +3,10 @@ import glob, json, os
 import vlib
 
 TARGETS = ["Base/Corr.vo", "Base/Fl.vo", "C01/Model.vo", "C02/Model.vo", "C11/Model.vo", "C03/Model.vo", "C03/ModelM.vo",
-           "C10/Gen.vo", "C09/ModelS.vo", "C09/ModelB.vo", "C09/ModelV.vo", "C09/ModelM.vo", "C09/Spec.vo", "C09/Corr.vo",
-           "C09/CorrB.vo", "C09/CorrM.vo", "C09/SpecTest.vo",
-           "C09/ProofsS.vo", "C09/ProofsB.vo", "C09/ProofsJ.vo", "C09/ProofsV.vo", "C09/ProofsM.vo", "C09/ProofsRefuted.vo",
-           "C09/ProofsRefutedB.vo", "C09/Props.vo"]
+           "C10/Gen.vo", "C09/ModelS.vo", "C09/ModelB.vo", "C09/ModelV.vo", "C09/ModelM.vo", "C09/ModelMD.vo", "C09/ModelVR.vo", "C09/Spec.vo", "C09/Corr.vo",
+           "C09/CorrB.vo", "C09/CorrM.vo", "C09/ModelI.vo", "C09/CorrI.vo", "C09/SpecTest.vo",
+           "C09/ProofsS.vo", "C09/ProofsB.vo", "C09/ProofsJ.vo", "C09/ProofsV.vo", "C09/ProofsM.vo", "C09/ProofsMD.vo", "C09/ProofsRefuted.vo",
+           "C09/ProofsRefutedB.vo", "C09/ProofsVR.vo", "C09/ProofsI.vo", "C09/Props.vo"]
 PROPS = ["C09/Props.v"]
 PARTIAL = (
     "Proved in Coq (coq/C09/Props.v), for ALL register files / worlds, all zero patterns, all alias patterns, about "
@@ -14,8 +14,7 @@ PARTIAL = (
     "Real64/Real32 (shared register-file model coq/C01/Model.v for the generic members, coq/C09/ModelS.v for the "
     "concrete twins incl. the four textual copies realMonadic/realMonadicLazy/realDyadic/realDyadicLazy): NEG ADD SUB MUL "
     "DIV POW SQRT EXP LOG LOG1P MIN MAX ABS SET LOGADD LOGSUB and the predicates EQUALS GREATER SMALLER SIGN return exactly "
-    "the generic result — whole register file incl. Order, N, raw gradient and Hessian storage and panics (ABS since "
-    "fix 2fc8894, SET with Alloc-before-Order since d9fca78; the round-1 witnesses are regression cases); (2) bare scalars "
+    "the generic result — whole register file incl. Order, N, raw gradient and Hessian storage and panics; (2) bare scalars "
     "(Float64 Float32 Int Int8..Int64, carrier of coq/C02/Model.v): the concrete twins, ABS included, equal the generic "
     "methods on operands that hold a value of the receiver's type; SQRT only where math.Pow(x, 0.5) = math.Sqrt(x) "
     "(hypothesis; false at -0 and -Inf: refuted for the float carrier); bare LOGADD/LOGSUB (value model, temporary "
@@ -25,21 +24,43 @@ PARTIAL = (
     "and VDIVS with a non-zero divisor leave exactly the world of the generic method (every value, the private map, the "
     "index keys, skip() side effects on operands, panics); VADDS VSUBS VDIVV call the generic method; EQUALS = true "
     "implies Equals = true with the same world, the converse and VDIVS with divisor 0 are refuted with witnesses; "
-    "(4) dense vectors: all ten pairs; (5) dense matrices (coq/C09/ModelM.v: nested i/j loops over AT = "
+    "(4) dense vectors: all ten pairs; (3')/(4') Real64/Real32 ELEMENTS (coq/C09/ModelVR.v: a dense Real vector is a list "
+    "of cells of C01's register file, shared ids = aliasing / overlap): VADDV VSUBV VMULV VDIVV VADDS VSUBS VMULS VDIVS "
+    "SET EQUALS of dense Real vectors run the concrete scalar twins element by element and leave exactly the register file "
+    "(values, Order, N, gradient, Hessian of every cell, element and dimension panics) of the generic members, for every "
+    "carrier — scalar_pairs_interchangeable composed along the loop (vector_pairs_interchangeable_real); sparse Real "
+    "vectors on visit schedules (the typed joint iterators deliver the schedule of the generic ones — proved over Z): visits "
+    "whose operand entries are present give the same register file, visits with an ABSENT operand entry differ in Order/N "
+    "of the receiver cell (F-C09-ABSENT-META, refuted with a witness; values and derivative values are compared on the "
+    "implementation every run); (5) dense matrices (coq/C09/ModelM.v: nested i/j loops over AT = "
     "&values[index(i,j)] with the index kernel coq/C10/Gen.v regenerates from the Go source, on the shared matrix world "
-    "coq/C03/ModelM.v whose step4 is the generic member): MADDM MSUBM MMULM MDIVM MADDS MSUBS MMULS MDIVS EQUALS OUTER "
-    "leave exactly the generic world and outcome on every world of well-formed (unsliced, untransposed) matrices, all "
-    "alias patterns, dimension mismatches and integer division by zero; MDOTM (both buffer branches), MDOTV, VDOTM are "
-    "modelled as coded and replayed against Go every run but their equality with C03's closed-form generic members is "
-    "NOT proved (r = a = b, where both Go members compute the same wrong product F-MDOTM-RR, is generated and "
-    "both models follow Go there); integer MdotV/VdotM: the generic member multiplies in float64 — refuted with the witness 94906267^2 on "
-    "a model with explicit binary64 rounding and int64 wrap-around. Element carrier of (3)-(5) is Z (exact ring): what "
-    "only floats can show (sign of zero, 0*Inf, Order/N of magic elements written by the absent-entry cases) is outside "
-    "these theorems and is decided per run by the direct generic-vs-concrete comparison on the implementation. NOT "
-    "modelled (compared on the implementation only, every run, all nine element types, bit-exact incl. derivatives): "
-    "accessors AT ROW COL DIAG SLICE, iterators ITERATOR ITERATOR_FROM JOINT_ITERATOR of vectors and of dense and sparse "
-    "matrices (sparse matrices have no concrete arithmetic twins; their generic accessors and iterators call the "
-    "concrete ones), matrix views. The pair table is "
+    "coq/C03/ModelM.v whose step4 is the generic member): ALL pairs of the table — MADDM MSUBM MMULM MDIVM MADDS MSUBS MMULS "
+    "MDIVS EQUALS OUTER and the products MDOTM MDOTV VDOTM — leave exactly the generic world and outcome on every world of "
+    "well-formed (unsliced, untransposed) matrices, all alias patterns, dimension mismatches, integer division by zero, "
+    "empty matrices (storageLocation panic), the r = b / r = a guard of MdotV / VdotM. MDOTM: the row-buffered and the "
+    "column-buffered schedule chosen by r.storageLocation() == b.storageLocation() as coded equal C03's closed form for "
+    "r = a, r = b, a = b and distinct operands (buffered line schedule invariant: flushed lines hold the result, every "
+    "other cell its old value; the cells read for a line are never in a flushed line), and C03's column schedule mdot_cols "
+    "for r = a = b (where both Go members compute the same wrong product F-MDOTM-RR). The generic MdotM / MdotV / VdotM are "
+    "ALSO written out at loop level from the Go text (coq/C09/ModelMD.v: ConstAt / At / Float64At through the interfaces), "
+    "replayed against Go's generic members every run, proved equal to the concrete twins step by step on every world and "
+    "hence to C03's closed form under C03's hypothesis. Integer MdotV/VdotM: the generic member multiplies in float64 — "
+    "refuted with the witness 94906267^2 on a model with explicit binary64 rounding and int64 wrap-around; "
+    "(6) accessors and iterators (coq/C09/ModelI.v, both members separately, generic nil guards of Get written out): "
+    "At/AT, Iterator/ITERATOR, IteratorFrom/ITERATOR_FROM with Get/GET per visit for dense and sparse vectors and matrices, "
+    "JointIterator/JOINT_ITERATOR for sparse vector and sparse matrix receivers: same visit sequence, same cell, same world "
+    "(skip() side effects), same panic on EVERY world (the generic members are wrappers of the concrete ones: the theorem is "
+    "by unfolding and exists so that a diverging edit breaks it; the wrapper shape of every generic accessor / iterator body "
+    "x receiver type is re-read from the source by go/ast each run and compared with the shape table the model assumes; both "
+    "models are replayed against both Go members, visit sequences and the world afterwards). Element carrier of (3)-(6) is Z "
+    "(exact ring): what only floats can show (sign of zero, 0*Inf, order of accumulation) is outside these theorems and is "
+    "decided per run by the direct generic-vs-concrete comparison on the implementation (directed family: products whose sum "
+    "depends on the accumulation order, in-place products r = a, r = b, r = a = b, all nine element types). NOT modelled "
+    "(compared on the implementation only, every run, all nine element types, bit-exact incl. derivatives): ROW COL DIAG "
+    "SLICE (source shape checked), JOINT_ITERATOR of dense receivers, matrix views; sparse Real absent-entry visits (above). "
+    "No pair exists for: arithmetic of sparse matrices (MaddM .. Outer have concrete twins on dense matrices only; sparse "
+    "matrices pair only At Get Iterator IteratorFrom JointIterator Row Col Diag Slice), Map MapSet Reduce ConstAt "
+    "ConstIterator ConstIteratorFrom ConstJointIterator (generic only; listed in the evidence as 'no pair'). The pair table is "
     "derived from the source (go/ast on the repository) and from reflection; pairs that are not exercised are listed "
     "in the evidence.")
 
@@ -93,9 +114,11 @@ def corr(ctx, binary, n):
         return None, []
     bad = []
     nc = ns = 0
-    for stem in ("cases", "bcases", "mcases"):
+    for stem in ("cases", "bcases", "mcases", "icases"):
         meta = json.load(open(os.path.join(ctx.dir, stem + ".meta.json")))
         vlib.merge_meta(ctx, meta)
+        if meta.get("no_pair"):
+            ctx.cov.setdefault("extra", {})["generic_only_container_methods (no pair)"] = meta["no_pair"]
         shards = sorted(glob.glob(os.path.join(ctx.dir, stem + "_*.v")), key=lambda p: int(p.rsplit("_", 1)[1][:-2]))
         res = vlib.eval_shards(shards)
         ctx.oblige(len(res), sum(1 for r in res if r["ok"]))
